@@ -487,7 +487,8 @@ def r6(ctx):
              '_calc_coolant_int_temp', '_calc_duct_temp',
              '_update_coolant_int_params'),
             ('region_unrodded', 'SingleNodeHomogeneous.calculate',
-             '_calc_coolant_temp', '_calc_duct_temp', None),
+             '_calc_coolant_temp', '_calc_duct_temp',
+             '_update_coolant_params'),
             ('region_unrodded', 'MultiNodeHomogeneous.calculate',
              '_calc_coolant_temp', '_calc_duct_temp', None)):
         fi = repo.func(modn, q)
@@ -527,11 +528,14 @@ def r6(ctx):
             if upd:
                 un = g.find(lambda n: isinstance(n, ast.Call) and
                             call_name(n) == 'self.' + upd)
-                ok = len(un) == 1 and g.dominates(an, un[0])
+                ok = len(un) == 1 and g.dominates(an, un[0]) and \
+                    g.must_pass(an, {un[0]})
                 ctx.require(ok, 'C01.R6', fi, un[0].stmt if un else fi.node,
-                            'correlated parameters are updated after the '
-                            'coolant is advanced', key=fi.full +
-                            ' | parameter update after')
+                            'coolant properties and correlated parameters '
+                            'are re-evaluated after the coolant is advanced, '
+                            'on every path (the next explicit step must not '
+                            'use the properties of an earlier level)',
+                            key=fi.full + ' | parameter update after')
     # bypass
     fi = repo.func('region_rodded', 'RoddedRegion.calculate')
     adv = [st for t, st in U.stores(fi.node)
